@@ -57,7 +57,8 @@ def dask_case(draw, names=None):
     sizes = dict(dims)
     sizes.update(freq=len(fg["f"]), dir=dg["n"])
     return dict(fg=fg, dg=dg, dims=dims, specs=specs, winds=winds, op=op, more=more, dtype=draw(st.sampled_from(["float64", "float32"])),
-                chunks=draw(chunking(sizes)), sched=draw(st.sampled_from(SCHED)), perm=draw(st.one_of(st.none(), st.permutations(list(range(len(dims) + 2))))))
+                chunks=draw(chunking(sizes)), sched=draw(st.sampled_from(SCHED)), perm=draw(st.one_of(st.none(), st.permutations(list(range(len(dims) + 2))))),
+                auxmode=draw(st.sampled_from(["same", "same", "memory", "other"])))
 
 
 def _compute(obj, sched):
@@ -88,7 +89,18 @@ def check_dask(case, ctx):
         x = tr.copy(data=np.ascontiguousarray(tr.values))
         ctx.label("dims-permuted", "freq-not-after-lead" if list(x.dims).index("freq") < len(case["dims"]) else "freq-after-lead")
     xd = x.chunk(chunks)
-    auxd = {k: v.chunk({d: c for d, c in chunks.items() if d in v.dims}) for k, v in aux.items()}
+    auxmode = case.get("auxmode", "same")
+    if auxmode == "memory":
+        auxd = dict(aux)  # wind and depth held in memory next to dask-backed spectra
+    elif auxmode == "other":
+        # wind and depth chunked differently from the spectra along the shared dimensions
+        def _other(d, n):
+            c = chunks[d]
+            return -1 if c == 1 else 1 if c == -1 or n < 3 else [n - 1, 1] if isinstance(c, list) and c[0] == 1 else [1, n - 1]
+        auxd = {k: v.chunk({d: _other(d, v.sizes[d]) for d in v.dims}) for k, v in aux.items()}
+    else:
+        auxd = {k: v.chunk({d: c for d, c in chunks.items() if d in v.dims}) for k, v in aux.items()}
+    ctx.label("wind-depth-chunks=" + auxmode)
     split_spec = any(chunks[d] != -1 for d in ("freq", "dir"))
     names = [case["op"]["op"]] + [n for n in case["more"] if n != case["op"]["op"]]
     ctx.label("sched=" + case["sched"], "spectral-dim-chunked" if split_spec else "spectral-dims-whole", "dtype=" + case["dtype"])
